@@ -308,11 +308,13 @@ structure TCmd where
 deriving Repr, DecidableEq
 
 /-- `for i, cmds in enumerate(zip(circuit, seq))` with `seq.insert(i, cmds[0])` while iterating (the list
-iterator then sees the displaced user command again at `i+1`), followed by
-`seq.extend(circuit[len(seq):])`.  Returns the new `seq` and `_user_offsets`; `none` = `CircuitError`. -/
+iterator then sees the displaced user command again at `i+1`); when the user's sequence ends first, the
+remaining layout commands are appended if they are all loop offsets (flag `False` each), otherwise
+`CircuitError` (repaired behaviour).  Returns the new `seq` and `_user_offsets`; `none` = `CircuitError`. -/
 def offsetInsert : List TCmd → List TCmd → Option (List TCmd × List Bool)
   | [], seq => some (seq, [])
-  | l :: ls, [] => some (l :: ls, [])
+  | l :: ls, [] =>
+    if (l :: ls).all (·.offset) then some (l :: ls, (l :: ls).map fun _ => false) else none
   | l :: ls, u :: us =>
     let ne := l.cls ≠ u.cls ∨ l.wires ≠ u.wires
     if l.offset then
